@@ -3,6 +3,8 @@ Require Import Parser Render PgModel QuerySem SqlSem SqlFrag.
 Require Import SemPattern.
 Require SqlParse SqlSemProof SqlEndToEnd SqlSucceeds SqlQueryText.
 Require Api Lex LexWs Printer PrintedText.
+Require LexWsG.
+Require Tables TablesTie FormatsTie.
 From Coq Require Import List String ZArith.
 Import ListNotations.
 
@@ -66,7 +68,7 @@ Theorem C03_query_text_to_rows :
   forall (o : oracle) (o2 : oracle2) (cl : Lex.classes),
   (forall r, Lex.is_space r = true -> Lex.is_alnum cl r = false) ->
   forall (t : Printer.qt) (ts : list tok) (a : ast),
-  Printer.wfq o t -> Forall (LexWs.lexes_alone cl) (map PrintedText.ltok (Printer.pr t)) ->
+  Printer.wfq o t -> Forall (LexWsG.lexes_clean cl) (map PrintedText.ltok (Printer.pr t)) ->
   tr (Printer.want o t) = Some (ts, a) ->
   side (Printer.want o t) = true -> text_ok (Printer.want o t) = true -> names_ok (Printer.want o t) = true ->
   SqlSucceeds.leaves_ok o2 (Printer.want o t) = true ->
@@ -91,9 +93,22 @@ Example C03_premises_are_satisfiable :
   side sample_tree = true /\ text_ok sample_tree = true /\ names_ok sample_tree = true /\ exists ts a, tr sample_tree = Some (ts, a) /\ Nat.leb 40 (List.length ts) = true.
 Proof. split; [vm_compute; reflexivity|]. split; [vm_compute; reflexivity|]. split; [vm_compute; reflexivity|]. eexists; eexists; split; [vm_compute; reflexivity|vm_compute; reflexivity]. Qed.
 
+
+(* the SQL templates of the one-line render functions (equals, the four comparisons, IN, the list parentheses, AND/OR, NOT) are not
+   retyped in the model: gentables reads each fmt.Sprintf format from pkg/driver/renderfn.go on every run (Tables.fn_formats) and
+   the model's function IS that format applied to its operands. A function rewritten into another form drops out of the table (no
+   entry, nothing claimed; the correspondence check still compares its output); a changed format breaks this theorem. *)
+Theorem C03_sql_templates_are_read_from_the_source : forall (o2 : oracle2) (id : Tables.renderfn_id) (l r : string),
+  match FormatsTie.assoc_fmt (FormatsTie.fn_name id) Tables.fn_formats with
+  | Some (f, args) => TablesTie.fn_of_id o2 id l r = Ret (FormatsTie.fmt_s f (map (FormatsTie.arg_val l r (FormatsTie.fn_op id)) args), None)
+  | None => True
+  end.
+Proof. exact FormatsTie.formats_tie. Qed.
+
 Print Assumptions C03_pattern_translation_preserves_meaning.
 Print Assumptions C03_grammar_reads_the_query_structure.
 Print Assumptions C03_sql_true_on_exactly_the_rows_of_the_query.
 Print Assumptions C03_rendered_sql_is_true_on_exactly_the_rows_of_the_query.
 Print Assumptions C03_fragment_renders_and_selects_exactly_the_rows_of_the_query.
 Print Assumptions C03_query_text_to_rows.
+Print Assumptions C03_sql_templates_are_read_from_the_source.
